@@ -8,10 +8,11 @@ CONSTANT Contents = {"c1", "c2"}
 CONSTANT Configs <- CfBeh
 CONSTANT Fails = {"ok", "fd"}
 CONSTANT FailKeys = {"k1", "k2"}
-CONSTANT OpSet = {"Get", "GetActive", "Put", "Upsert", "Remove", "Peek"}
+CONSTANT OpSet = {"Get", "GetActive", "Put", "Upsert", "Remove", "Peek", "Inval"}
 CONSTANT FreePut = TRUE
 CONSTANT MaxOps = 3
 CONSTANT MaxSteps = 3
+CONSTANT MaxUpd = 1
 CONSTANT Pool = 4
 CONSTANT SeqPrefix = 1000000
 SPECIFICATION Spec
